@@ -34,8 +34,15 @@ def run():
             if not f.endswith(".tla"):
                 continue
             stage = core.stage_spec(os.path.relpath(os.path.join(root, f), core.SPEC), core.workdir("sany"))
-            p = subprocess.run(["java", "-cp", core.TLC_CP, "tla2sany.SANY", f], cwd=stage, stdout=subprocess.PIPE,
-                               stderr=subprocess.STDOUT, text=True)
+            if "_TTrace_" in f:
+                continue        # trace-explorer leftovers of a hand-run TLC are not specifications
+            # proof modules (*Proofs*.tla, thorough tier) are written for the proof system: they import its standard module
+            # TLAPS and use its more lenient scoping (a lemma may re-declare NEW x next to a VARIABLE x); tlapm parses and
+            # checks them in the thorough tier of C07/C09/C15/C17, SANY is not their parser
+            if "Proofs" in f:
+                continue
+            cmd = ["java", "-cp", core.TLC_CP, "tla2sany.SANY", f]
+            p = subprocess.run(cmd, cwd=stage, stdout=subprocess.PIPE, stderr=subprocess.STDOUT, text=True)
             if p.returncode != 0 or "error" in p.stdout.lower().replace("errors: 0", ""):
                 if "Semantic errors" in p.stdout or "Parse Error" in p.stdout or p.returncode != 0:
                     print("SANY failed on", f)
